@@ -70,6 +70,7 @@ Definition dec (k : N) : string := NilEmpty.string_of_uint (N.to_uint k).      (
 Inductive site :=
 | SPortRef (inst port : name)
 | SNoConn (nm : option name) (inst port : name)
+| SNoConnMember (nm : option name) (inst port : name) (path : list name)   (* noconn_array_bundle: one signal per member *)
 | SFlatMember (binst member : name)
 | SArrayElem (arr : name) (k : N)
 | SPairMember (ib member : name).
@@ -81,6 +82,8 @@ Definition site_segs (s : site) : list string :=
   | SPortRef i p => [inst_port i p]
   | SNoConn (Some n) _ _ => [n]
   | SNoConn None i p => [inst_port i p]
+  | SNoConnMember (Some n) _ _ path => n :: path
+  | SNoConnMember None i p path => inst_port i p :: path
   | SFlatMember b m => [b; m]
   | SArrayElem a k => [a; dec k]
   | SPairMember ib m => [ib; m]
